@@ -173,6 +173,18 @@ func Gen(r *rand.Rand, o GenOpts) []string {
 	jump := o.Mix == "C09" && r.Intn(3) == 0
 	if jump {
 		nseal = 10
+		if r.Intn(3) != 0 {
+			// "bare quorum" variant: four validators of (almost) equal weight -- the three non-lagging ones hold
+			// a quorum only together, so their roots often cannot decide and the laggard's multi-slot event
+			// takes the decision at one of its LOWER slots (the situation of mutation c09-continue-after-seal)
+			w := uint32(3 + r.Intn(5))
+			perm := r.Perm(40)
+			vals = nil
+			for i := 0; i < 4; i++ {
+				vals = append(vals, VW{uint32(perm[i] + 1), w + uint32(r.Intn(2))})
+			}
+			pv = vals
+		}
 		cfg.RootsNum, cfg.RootsFrames = []uint{50, 1000}[r.Intn(2)], []int{5, 100}[r.Intn(2)]
 	} else if o.Mix == "C09" && r.Intn(2) == 0 {
 		cfg.RootsNum, cfg.RootsFrames = []uint{50, 1000}[r.Intn(2)], []int{5, 100}[r.Intn(2)]
@@ -206,10 +218,25 @@ func Gen(r *rand.Rand, o GenOpts) []string {
 			if last >= 3 && r.Intn(2) == 0 {
 				blk = before + last
 			}
+			if o.Mix != "C08" && r.Intn(3) == 0 {
+				blk = before + 1 // seal on the FIRST block of the chained call: the root still has slots / decisions left
+			}
 			policy = []SealRule{{Epoch: epoch0, Block: blk, Vals: mutateVals(r, vals)}}
 			if r.Intn(2) == 0 {
 				policy = append(policy, SealRule{Epoch: epoch0 + 1, Block: 1 + r.Intn(2), Vals: mutateVals(r, policy[0].Vals)})
 			}
+		}
+	}
+	// "jump prefix" family (C09, C02): the last event of the prefix decides a frame at a NON-LAST root slot and
+	// the application seals on exactly that block (mutation c09-continue-after-seal: the election loop must stop)
+	if (o.Mix == "C09" || o.Mix == "C02") && !jump && casDefs == nil && r.Intn(4) == 0 {
+		for try := 0; try < 25 && casDefs == nil; try++ {
+			cv, defs, spfs, before, _, ok := jumpPrefix(r, cfg, epoch0, 150)
+			if !ok {
+				continue
+			}
+			vals, casDefs, casSpf = cv, defs, spfs
+			policy = []SealRule{{Epoch: epoch0, Block: before + 1, Vals: mutateVals(r, vals)}}
 		}
 	}
 	ref := NewInst(cfg, epoch0, vals, policy)
@@ -272,6 +299,12 @@ func Gen(r *rand.Rand, o GenOpts) []string {
 			lightest := es.ids[len(es.ids)-1]
 			if uint64(es.w[lightest])*3 < es.total && len(es.ids) >= 3 {
 				es.deep = lightest
+				if len(es.ids) == 4 { // bare-quorum variant: any of the four may be the laggard
+					cand := es.ids[r.Intn(4)]
+					if uint64(es.w[cand])*3 < es.total {
+						es.deep = cand
+					}
+				}
 			}
 			es.pParent = 0.4 + 0.6*r.Float64()
 		}
@@ -382,8 +415,32 @@ func Gen(r *rand.Rand, o GenOpts) []string {
 		} else {
 			d.Seq = 1
 		}
+		// "wild" parents (1 event in 6): a subset of ALL accepted events of the epoch, chosen independently of
+		// heads and creators (several parents of one creator, old events); the event is built and processed
+		// on the reference like any other, so arbitrary parent subsets are exercised for ACCEPTED events too
+		wild := r.Intn(6) == 0 && len(es.all) > 0
+		if wild {
+			seenP := map[int]bool{}
+			for _, p := range d.Parents {
+				seenP[p] = true
+			}
+			for k := r.Intn(6); k > 0; k-- {
+				p := es.all[r.Intn(len(es.all))]
+				if seenP[p] || evs[p].def.Creator == cr {
+					continue
+				}
+				seenP[p] = true
+				d.Parents = append(d.Parents, p)
+				if evs[p].def.Lamport > lam {
+					lam = evs[p].def.Lamport
+				}
+			}
+		}
 		// other parents: one event per other validator
 		for _, k := range r.Perm(len(es.ids)) {
+			if wild {
+				break
+			}
 			v := es.ids[k]
 			if v == cr || len(es.own[v]) == 0 || (r.Float64() > es.pParent && cr != es.deep) {
 				continue
